@@ -109,6 +109,10 @@ fn main() {
     install_panic_hook();
 
     if let Some(hexs) = run_wal {
+        let hexs = match hexs.strip_prefix('@') {
+            Some(f) => std::fs::read_to_string(f).unwrap_or_default(),
+            None => hexs,
+        };
         let bytes = hex::decode(hexs.trim()).unwrap_or_default();
         limit_address_space(8);
         let (_, _, _, wal) = worker_paths(&id, "runwal", std::process::id() as usize);
@@ -137,7 +141,25 @@ fn main() {
                 std::process::exit(2)
             }
         };
-        match (spec.replay)(&body["case"]) {
+        let outcome = if body["case"]["kind"] == "wal" {
+            // a process-death case: re-run it alone in a subprocess
+            let hexs = body["case"]["wal"].as_str().unwrap_or("").to_string();
+            let f = std::path::Path::new(VERIF_ROOT).join("work").join(format!("replay.{}.cand", std::process::id()));
+            let _ = std::fs::create_dir_all(f.parent().unwrap());
+            let _ = std::fs::write(&f, &hexs);
+            let prof = body["case"]["profile"].as_str().unwrap_or("release");
+            let exe = std::env::current_exe().unwrap();
+            let exe = if prof == "checked" { exe.parent().and_then(|p| p.parent()).map(|p| p.join("checked").join("vcheck")).unwrap_or(exe) } else { exe };
+            let st = Command::new(exe).arg(&id).args(["--run-wal", &format!("@{}", f.display())]).stderr(Stdio::null()).status();
+            let _ = std::fs::remove_file(&f);
+            match st {
+                Ok(s) => Ok(!s.success()),
+                Err(e) => Err(e.to_string()),
+            }
+        } else {
+            (spec.replay)(&body["case"])
+        };
+        match outcome {
             Ok(true) => {
                 println!("VIOLATION property={id} replay={path}");
                 std::process::exit(1)
@@ -303,72 +325,80 @@ fn classify_dead_worker(
     let wal = std::fs::read_to_string(&walp).unwrap_or_default();
     let mut lines = wal.lines();
     let kind = lines.next().unwrap_or("").to_string();
-    let hexs = lines.next().unwrap_or("").to_string();
-    let bytes = hex::decode(&hexs).unwrap_or_default();
-    if kind.is_empty() || spec.describe_wal.is_none() || bytes.is_empty() {
+    let candidates: Vec<String> = lines.map(|l| l.to_string()).filter(|l| !l.is_empty()).collect();
+    if kind.is_empty() || spec.describe_wal.is_none() || candidates.is_empty() {
         total.machinery_errors.push(format!(
             "worker {w} ({pname}) died with status {status:?}, wal kind '{kind}', no replayable case"
         ));
         return;
     }
-    // Re-run alone, twice: must die both times to count as a verdict.
-    let mut deaths = 0;
-    let mut last = String::new();
-    for _ in 0..2 {
-        let mut c = match Command::new(pexe)
-            .arg(spec.id)
-            .args(["--run-wal", &hexs])
-            .stdin(Stdio::null())
-            .stderr(Stdio::null())
-            .spawn()
-        {
-            Ok(c) => c,
-            Err(_) => break,
-        };
-        let deadline = Instant::now() + Duration::from_secs(60);
-        let st = loop {
-            match c.try_wait() {
-                Ok(Some(s)) => break Some(s),
-                Ok(None) if Instant::now() > deadline => {
-                    let _ = c.kill();
-                    let _ = c.wait();
-                    break None;
+    // One candidate per search thread: re-run each alone, twice; a case that dies both times
+    // is a verdict. None reproducing = machinery error.
+    let mut found = false;
+    let cand_file = walp.with_extension("cand");
+    for hexs in candidates.iter().take(64) {
+        let bytes = hex::decode(hexs).unwrap_or_default();
+        if bytes.is_empty() || std::fs::write(&cand_file, hexs).is_err() {
+            continue;
+        }
+        let mut deaths = 0;
+        let mut last = String::new();
+        for _ in 0..2 {
+            let mut c = match Command::new(pexe)
+                .arg(spec.id)
+                .args(["--run-wal", &format!("@{}", cand_file.display())])
+                .stdin(Stdio::null())
+                .stderr(Stdio::null())
+                .spawn()
+            {
+                Ok(c) => c,
+                Err(_) => break,
+            };
+            let deadline = Instant::now() + Duration::from_secs(60);
+            let st = loop {
+                match c.try_wait() {
+                    Ok(Some(s)) => break Some(s),
+                    Ok(None) if Instant::now() > deadline => {
+                        let _ = c.kill();
+                        let _ = c.wait();
+                        break None;
+                    }
+                    Ok(None) => std::thread::sleep(Duration::from_millis(20)),
+                    Err(_) => break None,
                 }
-                Ok(None) => std::thread::sleep(Duration::from_millis(20)),
-                Err(_) => break None,
-            }
-        };
-        match st {
-            Some(s) if s.success() => {}
-            other => {
-                deaths += 1;
-                last = format!("{other:?}");
+            };
+            match st {
+                Some(s) if s.success() => break,
+                other => {
+                    deaths += 1;
+                    last = format!("{other:?}");
+                }
             }
         }
+        if deaths == 2 {
+            found = true;
+            let desc = (spec.describe_wal.unwrap())(&bytes);
+            let clause = if kind == "hang" || kind == "killed-by-parent" { "terminates" } else { "no_abort" };
+            let sig = Signature::new(spec.id, clause).site(format!("{kind}/{pname}"));
+            total.violate(
+                || {
+                    viol(
+                        sig,
+                        json!({"kind": "wal", "wal": hexs, "profile": pname, "decoded": desc}),
+                        json!("returns Ok or a typed Err"),
+                        json!(format!("process died: {kind}; alone: {last}")),
+                        String::new(),
+                    )
+                },
+                None,
+            );
+        }
     }
-    let desc = (spec.describe_wal.unwrap())(&bytes);
-    if deaths == 2 {
-        let clause = if kind == "hang" || kind == "killed-by-parent" {
-            "terminates"
-        } else {
-            "no_abort"
-        };
-        let sig = Signature::new(spec.id, clause).site(format!("{kind}/{pname}"));
-        total.violate(
-            || {
-                viol(
-                    sig,
-                    json!({"wal": hexs, "profile": pname, "decoded": desc}),
-                    json!("returns Ok or a typed Err"),
-                    json!(format!("process died: {kind}; alone: {last}")),
-                    String::new(),
-                )
-            },
-            None,
-        );
-    } else {
+    let _ = std::fs::remove_file(&cand_file);
+    if !found {
         total.machinery_errors.push(format!(
-            "worker {w} ({pname}) died ({kind}, {status:?}) but its last case {desc} does not reproduce the death alone ({deaths}/2)"
+            "worker {w} ({pname}) died ({kind}, {status:?}) but none of its {} write-ahead cases reproduces the death alone",
+            candidates.len()
         ));
     }
 }
